@@ -12,6 +12,8 @@ for d in sorted(os.listdir('/verif/seeded')):
         if det.get('exit')==1: res='caught: '+', '.join(det.get('violation_fingerprints',[]))[:90]+f" ({det.get('wall_s')} s)"
         elif 'exit' in det: res=f"MISSED (exit {det['exit']})"
         else: res=det.get('result','?')
+    if m.get('not_claimed') and (not det or det.get('exit')!=1):
+        res='not claimed (see meta.json): '+m['not_claimed'][:120]+'…'
     rows.append(f"| `{d}` | {m['breaks_property']} | {m['needs_to_manifest'][:150].replace('|','/')} | {res} |")
 table="| seeded change | property | needs, to manifest | quick check result |\n|---|---|---|---|\n"+"\n".join(rows)
 p='/verif/DESIGN.md'
